@@ -12,6 +12,7 @@ import itertools
 
 from .. import envmode
 from ..kernel import Violation, Discard, feq
+from ..kernel import quiet_print as _quiet_print
 from ..gen import gen_seq, KAPPA_CLAMPED, KAPPA_ABOVE
 from ..minimise import list_candidates
 
@@ -222,7 +223,7 @@ def execute(plan, ctx):
     envmode.apply(plan.get("env"), ctx)
     import localcider.sequenceParameters as spmod
     from localcider.sequenceParameters import SequenceParameters
-    spmod.print = lambda *a, **k: None
+    spmod.print = _quiet_print
     if plan.get("noise") is not None:
         from ..noise import noise_prelude
         noise_prelude(ctx, plan["noise"])
